@@ -769,6 +769,36 @@ class WalletWorld:
     def on_bumped(self, wi, h, t, old_fee, old_txid):
         """C07 hook."""
 
+    def op_listing(self, wi):
+        """Read-only listings and exports; they must leave the open wallet as it was (the ledger views follow)."""
+        ch = self.ch
+        h = self.H(wi)
+        how = ch.pick('listing', ['transactions_as_dict', 'transactions_as_dict_new', 'transactions_full', 'keys_as_dict',
+                                  'as_dict', 'transactions_export', 'info'])
+        self.w.op('listing', wallet=wi.name, how=how)
+        if how == 'transactions_as_dict':
+            fn = lambda: h.transactions(as_dict=True)
+        elif how == 'transactions_as_dict_new':
+            fn = lambda: h.transactions(as_dict=True, include_new=True)
+        elif how == 'transactions_full':
+            fn = lambda: h.transactions_full(limit=5)
+        elif how == 'keys_as_dict':
+            fn = lambda: h.keys(as_dict=True)
+        elif how == 'as_dict':
+            fn = lambda: h.as_dict()
+        elif how == 'transactions_export':
+            fn = lambda: h.transactions_export()
+        else:
+            import contextlib
+            import io
+
+            def fn():
+                with contextlib.redirect_stdout(io.StringIO()):
+                    h.info(detail=ch.pick('detail', [1, 3, 5]))
+        ok, r = self.call(wi, how, fn)
+        if ok:
+            self.w.outcome('listed', n=len(r) if isinstance(r, (list, dict)) else 0)
+
     def op_handles(self, wi):
         ch = self.ch
         how = ch.weighted('hop', [('reopen', 4), ('second', 2 if self.multi_handle else 0), ('switch', 2),
@@ -818,7 +848,7 @@ class WalletWorld:
     # -- main loop --------------------------------------------------------------------------------------------
     OPS_C08 = [('send', 10), ('fund', 8), ('update', 9), ('new_key', 4), ('utxo_add', 3), ('sweep', 2), ('mine', 4),
                ('handles', 6), ('send_pending', 3), ('import', 2), ('delete', 3), ('bumpfee', 2), ('advance', 2),
-               ('arm_crash', 2)]
+               ('arm_crash', 2), ('listing', 4)]
 
     def ops_table(self):
         return self.OPS_C08
@@ -856,6 +886,8 @@ class WalletWorld:
             self.op_advance()
         elif kind == 'arm_crash':
             self.op_arm_crash()
+        elif kind == 'listing':
+            self.op_listing(wi)
         else:
             self.op_extra(kind, wi)
         self.after_op(kind, wi)
